@@ -14,7 +14,7 @@ CLAIMS = {
         'correctly iff no positional argument stands behind it, which is exactly when the insertion guard passes; the guard of args / bases slice edits passes iff everything the edit touches lies in '
         'front of the first keyword, where argument index = merged index (both tied by correspondence in the split-fields sweep). One element that needs its own parentheses stays ONE element '
         'through every single-element and one-element-slice entry point (deterministic sweep). '
-        'Handler glue is not proved (cross-check only). Deterministic sweeps: removal of every dispensable clause under every norm option and entry point; arguments._all with / and * markers x every window x new arguments of every category (category-sensitive), keyword-only defaults. Proved as well: the `/` and `*` markers re-derived from the categories of a parameter list make Python read every parameter in its category (models/ArgMarkers.v, tied to the text real put_slice writes). Also: optional single-node fields next to parenthesized neighbours through every entry point; operands glued to the keyword behind them replaced by multi-line code.',
+        'Handler glue is not proved (cross-check only). Deterministic sweeps: removal of every dispensable clause under every norm option and entry point; arguments._all with / and * markers x every window x new arguments of every category (category-sensitive), keyword-only defaults. Proved as well: the `/` and `*` markers re-derived from the categories of a parameter list make Python read every parameter in its category (models/ArgMarkers.v, tied to the text real put_slice writes). Also: optional single-node fields next to parenthesized neighbours through every entry point; operands glued to the keyword behind them replaced by multi-line code. Also: name indexing (view[\'g\'], at(), assignment, deletion) through every bounded view of body / _body / orelse / finalbody.',
    note='Trusted: Coq kernel/vm_compute; py/py2v translator; CPython ast as reference; the view model is hand-written (tied by correspondence); '
         'refusal allow-list py/props/C03_refusals_allow.json. No axioms.',
    design='DESIGN.md section 4 C03'),
@@ -25,7 +25,7 @@ CLAIMS = {
         '(Ordered) the early-exit walk changes exactly the nodes the rule changes; the two-phase offset of put_src(action=offset) is mode_map (before: fixed, after: rigid, '
         'containers: grown, children: gap belongs to the container). Tie: translators + correspondence of _put_src/_get_src/_params_offset/_offset/put_src(offset) against the '
         'models on random texts and real trees; oracle: every token gap and every end-of-line gap (trailing spaces / line comment) x trivia-preserving replacement vs ast.parse of the new source, '
-        'with loc / bloc / pars of every node (queried before the edit in 70% of the cases) vs a fresh tree, coordinates also given as negative columns; plus boundary gaps vs the geometric rule.',
+        'with loc / bloc / pars of every node (queried before the edit in 70% of the cases) vs a fresh tree, coordinates also given as negative columns; plus boundary gaps vs the geometric rule. Also: calls / class bases with positional and keyword arguments interleaved in every way (starred arguments behind the last keyword).',
    note='Trusted: Coq kernel/vm_compute; py/py2v translators (pyfun, gen_fixups, gen_offset); CPython ast/tokenize as reference (OH1); Ordered is a hypothesis checked on every '
         'corpus tree; hand models Text.v (put_src) and Offset.v (walk) tied by correspondence. No axioms.',
    design='DESIGN.md section 3.1, 3.2, 4 C11'),
@@ -35,7 +35,7 @@ CLAIMS = {
         'replacement all surviving nodes end at mode_map and the new sub-tree lands rigidly (C01_frame_expr_replace). Partial: the element part for separator lists / statement '
         'blocks and handler glue are not modelled - they are decided by the oracle: after every successful op of random edit sequences (all public entry points, three code forms, '
         'random options with norm=True) the source is re-parsed by CPython and compared in types, fields, ctx and all positions. Trace correspondence replays sampled _offset/_put_src '
-        'calls of those edits on the Coq models. par() / unpar() on every expression and pattern node keep the tree equal to the parse of its source (AnnAssign.simple, annotation targets, nodes that cannot take parentheses). Also: slices re-indented line by line with per-line column offsets; try handlers removed one by one through every entry point. Delimiters around a node (models/Delimit.v over the TRANSLATED _put_src / _offset flags of _delimit_node, _parenthesize_grouping, _unparenthesize_grouping): every node beside or below the node keeps its text, also one that starts exactly where it ended (format specification of an f-string field), ancestors grow by the delimiters, unpar undoes par on every node; correspondence with the AST position of every node after par(force=True) / unpar() on every expression and pattern node.',
+        'calls of those edits on the Coq models. par() / unpar() on every expression and pattern node keep the tree equal to the parse of its source (AnnAssign.simple, annotation targets, nodes that cannot take parentheses). Also: slices re-indented line by line with per-line column offsets; try handlers removed one by one through every entry point. Delimiters around a node (models/Delimit.v over the TRANSLATED _put_src / _offset flags of _delimit_node, _parenthesize_grouping, _unparenthesize_grouping): every node beside or below the node keeps its text, also one that starts exactly where it ended (format specification of an f-string field), ancestors grow by the delimiters, unpar undoes par on every node; correspondence with the AST position of every node after par(force=True) / unpar() on every expression and pattern node. Also: a line comment replaced / added / deleted on warm location caches, then the enclosing blocks edited; ImportFrom.level and undenotable primitives (inf, nan, complex with a real part) in the primitive sweep.',
    note='Trusted: Coq kernel/vm_compute; translators; CPython ast (OH1); hand models tied by (trace) correspondence; known_findings.json lists one open finding class (arglike positional after keyword).',
    design='DESIGN.md section 4 C01'),
  'C12': dict(
@@ -65,7 +65,7 @@ CLAIMS = {
         '(models/Interleave.v: args / bases merged with keywords by position) are both lists each once, in position order, and that order is unique. Partial: the stepping of the six '
         'position-interleaving classes, step_fwd/step_back and child_path are compared by correspondence/oracle only (walk set vs ast.walk, parent-first, sibling text order, '
         'all chains mutually consistent, paths bijective, filtered walks bracketed), the chains and stepping also under every `all` setting (True / False / loc / class / set) on a zoo of '
-        'programs holding every combination of optional child groups (decorators x type parameters x argument kinds x bases x keywords ...).',
+        'programs holding every combination of optional child groups (decorators x type parameters x argument kinds x bases x keywords ...). Also: a grid of all-filters (True / False / \'loc\' / leaf types / sets of types) x on x recurse x back x self_ on every node as walk root: the three on-modes agree, a type filter yields exactly the nodes of that type the unfiltered walk reaches, first_child()/next() give the recurse=False walk.',
    note='Trusted: Coq kernel/vm_compute; py2v/gen_traverse (also reads ASDL kinds from CPython ast docstrings); hand model Walk.v tied by correspondence; Module.type_ignores is '
         'excluded from the compatibility check (documented deviation). One genuine defect found and fixed (root filter on leave/both). No axioms.',
    design='DESIGN.md section 4 C14'),
@@ -75,7 +75,7 @@ CLAIMS = {
         'parentheses wherever the hand-written Python-grammar requirement says a bare child would not parse back into the slot (C09_table_adequate), the function is total there, '
         'and associativity is encoded correctly. Partial: no Gallina parser/round-trip proof was built - the grammar spec is instead validated on every run against ast.parse on '
         'its whole finite domain (OH2), and the complete chain is cross-checked through real replaces (every slot x child kind x bare/parenthesised/multi-line/comment layout x '
-        'source/FST/AST form) plus put-back of children that need their parentheses. Line-structure enclosure and atom analysis are covered only by that oracle. Special slots also with non-ASCII text before the operand, a second put of the slot just filled, unenclosed slots with line-breaking replacements, assignment / deletion target slots (non-targets refused, never written). Also: bases of annotation targets behind attribute / subscript chains; brace-leading replacements right behind the brace of an f-string field.',
+        'source/FST/AST form) plus put-back of children that need their parentheses. Line-structure enclosure and atom analysis are covered only by that oracle. Special slots also with non-ASCII text before the operand, a second put of the slot just filled, unenclosed slots with line-breaking replacements, assignment / deletion target slots (non-targets refused, never written). Also: bases of annotation targets behind attribute / subscript chains; brace-leading replacements right behind the brace of an f-string field. Also: implicit string concatenations with a comment that ends in a backslash between the parts; Starred replacements with a line break between the star and the value.',
    note='Trusted: Coq kernel/vm_compute; py2v/gen_prec; hand spec PyGrammar.v (validated vs CPython each run); canonical examples in py/lib/slots.py; CPython ast. No axioms.',
    design='DESIGN.md section 4 C09'),
  'C04': dict(
@@ -88,7 +88,7 @@ CLAIMS = {
         'put_line_comment may change only the addressed comment; the theorem predicates are also evaluated on the real leading_trivia outputs. Also proved: how the compact trivia option is read '
         '(models/TriviaParams.v == get_trivia_params over every option shape, exhaustive correspondence): a bare +N / -N means the side default kind (block leading, line trailing), the sides are '
         'independent, the default / shorthand trailing side selects only the line comment. Deterministic sweeps: option shorthands, docstr=False/strict string preservation, pure insertions into '
-        'multi-line sequences. Deterministic: comments ending in a backslash above a removed statement; BoolOp operators written against the next operand; starred parameters deleted as single fields (recorded finding).',
+        'multi-line sequences. Deterministic: comments ending in a backslash above a removed statement; BoolOp operators written against the next operand; starred parameters deleted as single fields (recorded finding). Also: two edits through one bounded view, the second relative to the view\'s extent.',
    note='Trusted: Coq kernel/vm_compute; hand models Text.v and Trivia.v tied by correspondence; tokenize as token reference; container separators and grouping parentheses are '
         'ignored globally by the oracle (they may legitimately change anywhere in the edited container). No axioms.',
    design='DESIGN.md section 4 C04'),
@@ -99,7 +99,7 @@ CLAIMS = {
         'tree; views heal after external length changes. Partial: text-reading caches (bloc, pars), the a/f/parent/pfield link structure and object identity are decided by the '
         'oracle: after every successful edit of random scripts, 37 queries on sampled nodes are compared with a fresh FST(root.src), with and without 30 cache-warming queries '
         'before each edit, and both schedules must end in the identical source and tree; deterministic sweeps: every element of every list field deleted / inserted / replaced, every '
-        'leaf grown / shrunk, every node (un)parenthesized on layouts with children at the parent\'s column, keyword-glued parentheses and interleaved starred/keyword arguments. Deterministic: functions with docstrings spanning lines in every way put at other indentation under every docstr option; raw edits of a block\'s last statement ending in blanks / a continuation and a semicolon.',
+        'leaf grown / shrunk, every node (un)parenthesized on layouts with children at the parent\'s column, keyword-glued parentheses and interleaved starred/keyword arguments. Deterministic: functions with docstrings spanning lines in every way put at other indentation under every docstr option; raw edits of a block\'s last statement ending in blanks / a continuation and a semicolon. Also: one call argument / class base replaced through the virtual field by an element of the other kind in ragged layouts (order of both lists, pfield, walk and next() against a fresh tree).',
    note='Trusted: Coq kernel/vm_compute; hand model Cache.v (tied to the real cache/flush set by correspondence); a fresh FST(root.src) as reference observer. No axioms.',
    design='DESIGN.md section 4 C02'),
  'C17': dict(
@@ -122,7 +122,7 @@ CLAIMS = {
         'at character starts and returns the containing character for interior bytes, and both are the identity on ASCII lines; the AST-position to loc conversion therefore is '
         'exact. Partial (no theorem): the text-scanning computed locations (_loc_arguments, _loc_comprehension, _loc_withitem, _loc_match_case, _loc_op, decorators), pars() and '
         'find_*loc are decided per node / per rectangle against CPython positions, tokenize boundaries, a token bracket matcher and a brute-force scan, with identifiers renamed '
-        'to multi-byte in 70% of the programs. A genuine defect found this way (find_contains_loc ignoring decorators) was repaired in /repo. The search loop of find_contains_loc (models/FindLoc.v: the walk over the descendants with its four cases) returns, on every tree whose children lie inside their parent in order without overlap, the lowest node that contains the span (2 theorems; tied to the method on encoded trees over node spans, their ends and random spans); bloc is compared with an independent token-based expectation for every node. Proved as well: allow_exact="top" returns the first node on the descent path whose location is exactly the span, False the node above it; the path is a chain of children holding the span. find_loc and the allow_exact variants are also compared with brute force.',
+        'to multi-byte in 70% of the programs. A genuine defect found this way (find_contains_loc ignoring decorators) was repaired in /repo. The search loop of find_contains_loc (models/FindLoc.v: the walk over the descendants with its four cases) returns, on every tree whose children lie inside their parent in order without overlap, the lowest node that contains the span (2 theorems; tied to the method on encoded trees over node spans, their ends and random spans); bloc is compared with an independent token-based expectation for every node. Proved as well: allow_exact="top" returns the first node on the descent path whose location is exactly the span, False the node above it; the path is a chain of children holding the span. find_loc and the allow_exact variants are also compared with brute force. Also: generator expressions as call arguments in every position (alone, with keywords / **, one of several, doubly parenthesized) for the token-bracket oracle of pars(shared=...).',
    note='Trusted: Coq kernel/vm_compute; hand model Bistr.v tied by correspondence; tokenize (with multi-line end columns recomputed) and ast byte offsets as reference. No axioms.',
    design='DESIGN.md section 4 C06'),
  'C08': dict(
@@ -132,7 +132,7 @@ CLAIMS = {
         'with whitespace); cut+put-back, put-own-slice and read-after-write laws of the slice semantics; replace-by-self / read-back / disjoint-paths laws on trees. Partial: that the concrete '
         'put/cut code realises those laws per field, code_as_* normalisation, own_src and the line-comment accessor are decided by oracles on the real implementation (cut slice/one and put back '
         'incl. Compare operators and virtual fields, replace by own copy / pure AST / own source, own_src re-parse, docstring and comment accessors with hostile texts). Two genuine defects '
-        'found this way were repaired in /repo; one is recorded as a known finding. Deterministic: every identifier of a program written with compatibility characters put back as its own source text.',
+        'found this way were repaired in /repo; one is recorded as a known finding. Deterministic: every identifier of a program written with compatibility characters put back as its own source text. Also: nodes below self-documenting f-string fields spread over continuation lines replaced by their own copy / pure AST / source.',
    note='Trusted: Coq kernel/vm_compute; hand model StrRepr.v tied by correspondence (model output == real output symbol by symbol, model reader == ast.literal_eval on the same literals); CPython parser as reference. No axioms.',
    design='DESIGN.md section 4 C08'),
  'C07': dict(
@@ -150,7 +150,7 @@ CLAIMS = {
         'the delimiter guard accepts exactly the texts without an over-closing prefix, an accepted balanced fragment leaves the wrapper opener to be closed right after it, a refused one would have '
         'closed it inside. Partial: CPython itself, the per-mode wrapper choice and the non-delimiter guards are decided by the oracle: 24 extended modes + operators + whole programs; fragments from '
         'the corpus, re-laid-out, non-ASCII, and hostile (wrapper-closing text, wrong counts, splices); validity and the expected sub-tree come from embeddings written for the check (construct '
-        'around the hole unchanged, all fragment tokens inside the element). Four wrapper-induced misparses found this way were repaired in /repo. The default mode \'all\' is held to python\'s tree for every source python parses (and to the mode of its result for fragments); the acceptance of a trailing comma may not depend on its layout. The embedding judge also refuses text that continues the wrapper iterable; a naked sequence starts at the fragment\'s first token.',
+        'around the hole unchanged, all fragment tokens inside the element). Four wrapper-induced misparses found this way were repaired in /repo. The default mode \'all\' is held to python\'s tree for every source python parses (and to the mode of its result for fragments); the acceptance of a trailing comma may not depend on its layout. The embedding judge also refuses text that continues the wrapper iterable; a naked sequence starts at the fragment\'s first token. Also: with-items that are yield / walrus expressions need parentheses of their own (the embedding judge no longer shares the wrapper\'s blind spot); fragments that close the wrapper\'s header and hide its \': pass\' behind a comment.',
    note='Trusted: Coq kernel/vm_compute; hand model Wrap.v tied by correspondence; CPython ast.parse and tokenize as reference; the EMB embedding table of py/props/C05.py as the definition of "full construct". No axioms.',
    design='DESIGN.md section 4 C05'),
  'C10': dict(
@@ -182,7 +182,7 @@ CLAIMS = {
         'skips the children but not the leave (5 theorems, tied to the real generator under random send() decisions). Partial: termination, '
         'leave/both under mutation (deterministic resend sweep: replace + send(True) at every leaving yield, walk root included) and scope variants, search/sub consumers, legality of real replace/remove (evaluated on every observed heap) and the final C01 are decided by the oracle: random walks with replace/remove '
         'of the current node, ancestors and siblings and send(), checking no raise, bounded steps, attached-and-reachable yields, no double entry, new children next, final re-parse. One defect '
-        '(scope walk of comprehensions used stale nodes) and later ones (see known_findings.json fixed lines) were repaired in /repo. send(True) at entry yields (enter / both, recurse on / off, with a replacement first) is followed by the node\'s (new) children, the node once on leaving, then the reference continuation. Proved as well (models/WalkShallow.v): in a non-recursing both-walk send(True) at the entry yield of a child yields exactly its bracket. Deterministic: an optional single-node child removed while the walk stands in front of / inside it. Also: the walk root of an inner walk (or an ancestor) removed / replaced while the walk stands below it.',
+        '(scope walk of comprehensions used stale nodes) and later ones (see known_findings.json fixed lines) were repaired in /repo. send(True) at entry yields (enter / both, recurse on / off, with a replacement first) is followed by the node\'s (new) children, the node once on leaving, then the reference continuation. Proved as well (models/WalkShallow.v): in a non-recursing both-walk send(True) at the entry yield of a child yields exactly its bracket. Deterministic: an optional single-node child removed while the walk stands in front of / inside it. Also: the walk root of an inner walk (or an ancestor) removed / replaced while the walk stands below it. Also: on=\'both\' with send(False) at the entry of every node, the walk root included: entered nodes are left exactly once, innermost first.',
    note='Trusted: Coq kernel/vm_compute; hand model WalkMut.v tied by correspondence on heaps observed from the real objects (children order from astutil.syntax_ordered_children, checked in C14); CPython parser. No axioms.',
    design='DESIGN.md section 4 C15'),
  'C16': dict(
@@ -205,7 +205,7 @@ CLAIMS = {
         'counts on real trees are decided by the oracle: FST.subn vs a pure-AST reference for 16 scenarios x flat/nested on corpus and generated programs (C01, structure, counts, comments outside '
         'substituted nodes). Also proved (models/SubLoop.v, the driver loop over the match locations with count / loop / callback, tied by correspondence to the counts FST.subn reports): the reported '
         'pair is (locations substituted, substitutions performed) for every setting, every location takes at most what it can match and at most the same loop allowance, a count limit is respected. '
-        'Deterministic stages: statement templates, single vs slice slots of one template, __FSS_/__FSO_, loop with declining callbacks. A capture written into a slot INSIDE a string constant of the template (models/SlotEscape.v over the literal scanners of models/StrRepr.v) reads back as the capture\'s source in single- and triple-quoted strings of either quote kind (3 theorems, tied to the text real sub() writes). Deterministic sweeps: slot modes, ctx=True, several-statement templates, spliced whole matches with nested, interleaved captures. Quantifier captures over the merged virtual fields for every interleaving x window; slots inside f-string literal parts and bytes constants read back as the capture\'s source. Also: negative count; loop= over statements replaced by several statements.',
+        'Deterministic stages: statement templates, single vs slice slots of one template, __FSS_/__FSO_, loop with declining callbacks. A capture written into a slot INSIDE a string constant of the template (models/SlotEscape.v over the literal scanners of models/StrRepr.v) reads back as the capture\'s source in single- and triple-quoted strings of either quote kind (3 theorems, tied to the text real sub() writes). Deterministic sweeps: slot modes, ctx=True, several-statement templates, spliced whole matches with nested, interleaved captures. Quantifier captures over the merged virtual fields for every interleaving x window; slots inside f-string literal parts and bytes constants read back as the capture\'s source. Also: negative count; loop= over statements replaced by several statements. Also: a captured arguments node put into a template parameter list with the slot in every position (plain, behind / or *, as *slot, **slot, alone): names, annotations, defaults, order, and the kind where the slot does not ask to change it.',
    note='Trusted: Coq kernel/vm_compute; hand models Subst.v and SubLoop.v tied by correspondence; FST.match for the set of matching nodes (C17); ast.unparse/parse to decide that a reference result is a program. No axioms.',
    design='DESIGN.md section 4 C18'),
  'C19': dict(
